@@ -48,6 +48,11 @@ def cells_for(tier, prop):
         for fn in ("cp_estimate", "bp_estimate"):
             for warm in ([["A", "B", "C"], ["A", "B", "C"], ["B", "A"]], [["C", "B"], ["B"], ["C", "A", "B"]]):
                 out.append(dict(NC=3, B=3, winner=winner, fn=fn, hint=None, repeat=warm))
+    # the contest's ballot total may exceed the number of CVRs (informal ballots): difficulties are relative to the total
+    for B in (2, 3):
+        for winner in cands:
+            for fn in ("cp_estimate", "bp_estimate"):
+                out.append(dict(NC=3, B=B, winner=winner, fn=fn, hint=None, extra=2))
     if prop in ("C04", "C15"):
         # final filtering: an assertion may be dropped only if the one that 'subsumes' it contradicts every order it ruled out
         for t in (2, 3, 4):
@@ -374,7 +379,8 @@ def run_cell(cell, want):
         RU.NEBAssertion.is_vote_for_winner = lambda self, cvr: nw(self.winner, self.loser, cvr)
         RU.NEBAssertion.is_vote_for_loser = lambda self, cvr: nl(self.winner, self.loser, cvr)
 
-        total_sv = SV(z3.Sum(wts)) if M > 1 else B
+        EXTRA = cell.get("extra", 0)      # ballots of the contest that carry no ranking (informal): counted in the total only
+        total_sv = SV(z3.Sum(wts)) if M > 1 else B + EXTRA
 
         def asn_func(tw, tl, other, total):
             # tallies are concretised by forks (a handful of feasible values each); the shipped difficulty function then runs concretely
@@ -444,7 +450,14 @@ def run_cell(cell, want):
                 D = max(float(d) for d in diffs)
                 # table of (winner tally, loser tally) pairs whose difficulty is strictly below D (the shipped function as a black box)
                 easier = {}
-                Tot = B if M == 1 else concretize_int(total_sv)
+                Tot = B + EXTRA if M == 1 else concretize_int(total_sv)
+                # the difficulty an assertion carries is the shipped function of its own tallies and the contest's ballot total
+                for a, k in zip(res, ret):
+                    vw = concretize_int(a.votes_for_winner) if isinstance(a.votes_for_winner, SV) else int(a.votes_for_winner)
+                    vl = concretize_int(a.votes_for_loser) if isinstance(a.votes_for_loser, SV) else int(a.votes_for_loser)
+                    td = float(real_fn(vw, vl, Tot - vw - vl, Tot))
+                    claims.append((f"{k}: the difficulty it carries is the difficulty function of its tallies and the ballot total",
+                                   abs(float(a.difficulty) - td) <= 1e-9 * max(1.0, abs(td))))
                 for tw in range(Tot + 1):
                     for tl in range(Tot + 1 - tw):
                         if tw > tl:
@@ -525,7 +538,8 @@ def replay(f, want):
     bad = []
     try:
         # a call on a different profile first: results must not carry over between calls
-        con = RU.Contest("c", list(cands), winner, B, order=list(cell["hint"]) if cell["hint"] else [])
+        TOT = B + cell.get("extra", 0)
+        con = RU.Contest("c", list(cands), winner, TOT, order=list(cell["hint"]) if cell["hint"] else [])
         if inp.get("previous_call_ballots"):
             # the same contest description is used for both calls, as in the symbolic run
             warm = {f"w{b}": {"c": {c: i for i, c in enumerate(rk)}} for b, rk in enumerate(inp["previous_call_ballots"])}
@@ -556,7 +570,11 @@ def replay(f, want):
                     if not any(contradicts(k, pi) for k in ret):
                         bad.append(f"elimination order {''.join(pi)} is not excluded by {ret}")
             D = max(float(a.difficulty) for a in res)
-            diff = lambda a: float(fn(tally(a)[0], tally(a)[1], B - sum(tally(a)), B))
+            for a, k in zip(res, ret):
+                td = float(fn(tally(k)[0], tally(k)[1], TOT - sum(tally(k)), TOT))
+                if abs(float(a.difficulty) - td) > 1e-9 * max(1.0, abs(td)):
+                    bad.append(f"{k}: carries difficulty {float(a.difficulty)} but the difficulty function gives {td} for tallies {tally(k)} of {TOT} ballots")
+            diff = lambda a: float(fn(tally(a)[0], tally(a)[1], TOT - sum(tally(a)), TOT))
             easier = [a for a in true_set if diff(a) < D - 1e-12]
             if all(any(contradicts(a, pi) for a in easier) for pi in orders):
                 bad.append(f"returned largest difficulty {D}, but the true assertions strictly easier than that already exclude every alternative winner")
